@@ -310,6 +310,12 @@ def _cores(style, c, j, p):
     '''cores of the j-th rank on the node at position p'''
     if style == 'low':
         return [j * c + t for t in range(c)]
+    if style == 'gaps':
+        # 3 or 4 cores with holes: [0, 2, 4] / [1, 2, 4, 5] (+ 6 per rank)
+        return [6 * j + t for t in ((0, 2, 4) if c == 3 else (1, 2, 4, 5))]
+    if style == 'descending':
+        # contiguous blocks; a node later in the node list holds lower cores
+        return [(3 - p) * c + j * c + t for t in range(c)]
     # scattered: non-contiguous, differing between nodes, descending by rank
     return [13 - 3 * j - p, 15 - 3 * j - p][:c]
 
@@ -378,6 +384,20 @@ def gen_placements():
         for c, g, style in ((1, 0, 'low'), (2, 1, 'scattered')):
             out.append(make_placement(pattern, nodes, c, g, style,
                                       order='interleaved'))
+    # ranks with 3 and 4 cores, contiguous and with holes
+    for pattern, nodes in (((1,), ['localhost']), ((2,), ['nodeb']),
+                           ((1, 1), ['localhost', 'nodeb']),
+                           ((2, 1), ['nodec', 'nodeb'])):
+        for c in (3, 4):
+            for style in ('low', 'gaps'):
+                out.append(make_placement(pattern, nodes, c, 0, style))
+    # contiguous cores which start lower on every later node of the list
+    for pattern, nodes in (((1, 1), ['localhost', 'nodeb']),
+                           ((1, 1), ['nodec', 'nodeb']),
+                           ((2, 1), ['nodeb', 'nodec']),
+                           ((1, 1, 1), ['localhost', 'nodeb', 'nodec'])):
+        for c in (1, 2):
+            out.append(make_placement(pattern, nodes, c, 0, 'descending'))
     out.append(big_placement('42x42'))
     out.append(big_placement('43x43'))
     out.append(big_placement('43x43', c=2, g=1))
@@ -404,6 +424,7 @@ def features(pl):
     if any(v < max(cvals) for v in cvals[:-1]):
         f.add('non-last-node-below-max')
     if pl['c'] > 1                        : f.add('multi-core-rank')
+    if pl['c'] > 2                        : f.add('>2-cores-per-rank')
     if any(sorted(r[1]) != list(range(min(r[1]), min(r[1]) + len(r[1])))
            for r in ranks)                : f.add('non-contiguous-cores')
     if any(r[1][0] != 0 for r in ranks[:1]): f.add('first-core-not-0')
@@ -423,16 +444,20 @@ def features(pl):
     if min(r[1][0] for r in ranks if r[0] == first) // c \
        >= max(1, CPN // (len(ranks) * c)):
         f.add('lowest-core-block>=cores_per_node/task-cores')
+    if any(r[1][0] // c < min(x[1][0] for x in ranks if x[0] == first) // c
+           for r in ranks if r[0] != first):
+        f.add('lower-core-block-on-later-node')
     return f
 
 
-FEATURE_ORDER = ['multi-rank', 'multi-node', 'ranks-share-node',
+FEATURE_ORDER = ['lower-core-block-on-later-node', 'multi-rank', 'multi-node', 'ranks-share-node',
                  'uneven-nodes', 'non-last-node-below-max', 'multi-core-rank',
                  'non-contiguous-cores', 'first-core-not-0',
                  'cores-differ-per-node', 'gpus', 'first-node-remote',
                  'nodes-not-in-list-order', 'ranks-interleaved', '>42-ranks',
                  '>42-nodes', 'shared-gpu', 'split-gpu',
-                 'lowest-core-block>=cores_per_node/task-cores']
+                 'lowest-core-block>=cores_per_node/task-cores',
+                 '>2-cores-per-rank']
 
 
 def minimal_trigger(failing, passing, clean=None):
@@ -707,7 +732,7 @@ class Reading(object):
             if k in ('pins', 'gpins'):
                 val = [[n, sorted(s)] for n, s in val]
             d[k] = val
-        for k in ('first_node', 'offset', 'tpn', 'rs', 'per_rs', 'c_rs',
+        for k in ('first_node', 'offset', 'tpn', 'entry', 'rs', 'per_rs', 'c_rs',
                   'g_rs', 'rs_host', 'dvm'):
             if getattr(self, k, None) is not None:
                 d[k] = getattr(self, k)
@@ -1241,6 +1266,7 @@ def read_ibrun(v, cmd, files, sbox, exec_path):
     r.first_node = ALL_NODES[pos][0] if pos < len(ALL_NODES) \
                    else '<entry %d beyond the host list>' % off
     r.offset, r.tpn = off, tpn
+    r.entry = off - pos * tpn          # entry within the node's part
     return r
 
 
@@ -1336,6 +1362,18 @@ def judge(v, pl, obs, sbox, lm=None):
                         'offset %d with %d host list entries per node is on '
                         '%s; first node of the placement is %s'
                         % (r.offset, r.tpn, r.first_node, first)))
+        else:
+            # ibrun.py: the entry within the node's part of the host list is
+            # the task's lowest core there, in units of one rank's cores
+            block = min(x[1][0] for x in ranks if x[0] == first) // pl['c']
+            if r.entry != block:
+                bad.append(('pinned-cores',
+                            'offset %d is entry %d of %s (%d entries per '
+                            'node); the task\'s lowest core on that node is '
+                            '%d = block %d of %d cores'
+                            % (r.offset, r.entry, first, r.tpn,
+                               min(x[1][0] for x in ranks if x[0] == first),
+                               block, pl['c'])))
 
     # pinning
     if r.pins is not None:
@@ -2029,7 +2067,7 @@ def run(ctx):
         pls   = placements_for(v)
         hists = history_indices(pls, ctx.quick)
         n_hist = max(n_hist, len(hists))
-        size  = 8 if ctx.quick else 52
+        size  = 64 if ctx.quick else 52
         for lo in range(0, len(hists), size):
             jobs.append(('pairs', v['id'], hists[lo:lo + size]))
     n_rep = 0
